@@ -349,6 +349,16 @@ class PointTier(textgrid_tier.TextgridTier):
                 matchList.append(point)
                 break
 
+        # Report (and possibly raise) before anything is modified
+        if (
+            len(matchList) != 0
+            and collisionMode != constants.IntervalCollision.ERROR
+        ):
+            collisionReporter(
+                errors.CollisionError,
+                f"Collision warning for ({point}) with items ({matchList}) of tier '{self.name}'",
+            )
+
         if len(matchList) == 0:
             self._entries.append(newPoint)
 
@@ -379,12 +389,6 @@ class PointTier(textgrid_tier.TextgridTier):
 
         if self._entries[-1][0] > self.maxTimestamp:
             self.maxTimestamp = self._entries[-1][0]
-
-        if len(matchList) != 0:
-            collisionReporter(
-                errors.CollisionError,
-                f"Collision warning for ({point}) with items ({matchList}) of tier '{self.name}'",
-            )
 
     def insertSpace(
         self,
